@@ -603,6 +603,8 @@ def r14_4(ctx):
 
 BASE_DOMAINS = ("Polyhedron", "Grid", "BD_Shape", "Octagonal_Shape", "Box", "C_Polyhedron", "NNC_Polyhedron")
 DIM_TYPES = r"\b(Polyhedron|Grid|BD_Shape|Octagonal_Shape|Box|Constraint|Generator|Congruence|Grid_Generator|Constraint_System|Generator_System|Congruence_System|Grid_Generator_System|Linear_Expression|Variable|Variables_Set|Linear_Form)\b"
+SYSTEM_TYPES = r"\b(Constraint_System|Congruence_System|Generator_System|Grid_Generator_System)\b"
+
 R146_EXC = {
     ("Box", "has_lower_bound", "var"): "documented precondition (Box_defs.hh: `an undefined behavior is obtained if this assumption is not met`); not exported to the C interface",
     ("Box", "has_upper_bound", "var"): "as for has_lower_bound",
@@ -632,11 +634,15 @@ class _Validators:
     def _is_throw(f, x):
         return x["k"] == "throw" or (x["k"] in ("call", "mcall") and (f.call_name(x).startswith("throw_") or f.call_name(x).startswith("check_space_dimension")))
 
-    def validates(self, f, p, depth=3):
-        k = (id(f), p, depth)
+    def validates(self, f, p, depth=3, system=False):
+        """system: p is a constraint / generator / congruence SYSTEM, whose space dimension does not depend on its
+        elements: a check that sits inside a loop (over the elements) does not run for a system without elements,
+        or with tautologies only, and does not count."""
+        k = (id(f), p, depth, system)
         if k in self.memo:
             return self.memo[k]
         self.memo[k] = False
+        in_loop = (lambda x: any(a["k"] in ("for", "while", "do") for a in f.ancestors(x))) if system else (lambda x: False)
         # p and the locals derived from it (dimensions read off it, iterators over it, objects built from it)
         dset = set([p])
         changed = True
@@ -647,7 +653,7 @@ class _Validators:
                     dset.add(v["n"])
                     changed = True
         for x in f.walk():
-            if not self._is_throw(f, x):
+            if not self._is_throw(f, x) or in_loop(x):
                 continue
             named = x["k"] in ("call", "mcall") and ("dimension_incompatible" in f.call_name(x) or "constraint_incompatible" in f.call_name(x) or "expression_too_complex" in f.call_name(x))
             guards = [f.deref(a["c"][2]) for a in f.ancestors(x) if a["k"] == "if"]
@@ -660,7 +666,7 @@ class _Validators:
         if depth > 0:
             for c in f.calls():
                 nm = f.call_name(c)
-                if not nm:
+                if not nm or in_loop(c):
                     continue
                 args = f.call_args(c)
                 idx = [i for i, a in enumerate(args) if a is not None and self._mentions(f, a, dset)]
@@ -684,7 +690,7 @@ class _Validators:
                 for g in cands:
                     if g is f or len(g.params) < len(args):
                         continue
-                    if any(i < len(g.params) and self.validates(g, g.params[i]["n"], depth - 1) for i in idx):
+                    if any(i < len(g.params) and self.validates(g, g.params[i]["n"], depth - 1, system and bool(re.search(SYSTEM_TYPES, g.params[i]["t"]))) for i in idx):
                         self.memo[k] = True
                         return True
                     # p is the receiver of a member that checks its own dimension against an argument's
@@ -719,13 +725,47 @@ def r14_6(ctx):
                 continue      # output parameter (the point where the extremum is reached)
             n += 1
             inst = "%s::%s(%s)" % (f.clsn, f.name, q["n"])
-            if V.validates(f, q["n"]):
+            if V.validates(f, q["n"], 3, bool(re.search(SYSTEM_TYPES, q["t"]))):
                 ctx.ok(rid, inst, f.where())
             elif (f.clsn, f.name, q["n"]) in R146_EXC:
                 ctx.excepted(rid, inst, f.where(), R146_EXC[(f.clsn, f.name, q["n"])])
             else:
                 ctx.violation(rid, inst, f.where(), "no validation of `%s` (%s) is reached from this public member: an argument of the wrong dimension goes on to workers that only assert compatibility" % (q["n"], q["t"][-50:]))
     ctx.floor(rid, n, 350, "dimensioned arguments of public members")
+
+
+def r14_7(ctx):
+    rid = "R14.7"
+    ctx.rule(rid, "exceeding the maximum space dimension is reported as std::length_error: the documentation of every dimension-adding operation promises std::length_error when the result would exceed max_space_dimension() (and the C interface maps it to its own error code). Wherever a guard compares against max_space_dimension() and throws, the exception is std::length_error — thrown directly or through check_space_dimension_overflow(); throw_invalid_argument() there gives the caller the wrong exception class")
+    fx = ctx.extract(units_alloc())
+    seen = set()
+    n = 0
+    for f in fx.functions:
+        key = (f.relfile, f.line)
+        if key in seen:
+            continue
+        seen.add(key)
+        for x in f.walk():
+            if x["k"] in ("call", "mcall") and f.call_name(x).lstrip("~") == "check_space_dimension_overflow":
+                n += 1
+                ctx.ok(rid, "%s: check_space_dimension_overflow (line %s)" % (f.name, x.get("l")), f.where(x))
+            if x["k"] != "if":
+                continue
+            cond = f.deref(x["c"][2])
+            if cond is None or "max_space_dimension" not in " ".join(f.text(y) for y in f.walk(cond) if y["k"] in ("call", "mcall", "ref")):
+                continue
+            then = f.deref(x["c"][3])
+            throws = [y for y in f.walk(then) if y["k"] == "throw" or (y["k"] in ("call", "mcall") and f.call_name(y).startswith("throw_"))] if then is not None else []
+            if not throws:
+                continue
+            n += 1
+            inst = "%s%s: guard `%s`" % ((f.clsn + "::") if f.clsn else "", f.name, f.text(cond)[:50])
+            bad = [y for y in throws if not (y["k"] == "throw" and "length_error" in (f.text(y) + " " + str(y.get("t", ""))))]
+            if bad:
+                ctx.violation(rid, inst, f.where(bad[0]), "the overflow of the space dimension is reported by `%s`, not by std::length_error as documented" % f.text(bad[0])[:50])
+            else:
+                ctx.ok(rid, inst, f.where(x))
+    ctx.floor(rid, n, 25, "space-dimension overflow checks")
 
 
 def run(ctx):
@@ -738,6 +778,7 @@ def run(ctx):
     r14_1(ctx)
     r14_4(ctx)
     r14_6(ctx)
+    r14_7(ctx)
 
 
 
